@@ -152,7 +152,7 @@ def run(c):
         if c["kind"] == "neuron":
             if tval(n.input_type, "input") != list(S) or tval(n.output_type, "output") != list(S):
                 fail = f"{c['cls']} accepted but types are {n.input_type} / {n.output_type}, expected {list(S)}"
-            elif c["cls"] == "CubaLIF" and (not isinstance(n.w_in, np.ndarray) or n.w_in.shape != S):
+            elif c["cls"] == "CubaLIF" and (not isinstance(n.w_in, (np.ndarray, np.generic)) or np.shape(n.w_in) != S):
                 fail = f"CubaLIF w_in not materialised to {S}: {getattr(n.w_in, 'shape', None)!r} ({c['w_in']})"
         elif c["kind"] == "linear":
             if tval(n.input_type, "input") == "none" or tval(n.output_type, "output") == "none":
